@@ -433,6 +433,10 @@ class Emit:
                 if all(re.fullmatch(r'\(\(u(?:8|16|32|64)\)0ULL\)', x) for _, x in rest[n_:]):
                     s.notes['gep into retyped buffer'] += 1
                     return '((u8*)&(*%s)%s)' % (e, path), IntTy(8)
+                if len(rest[n_:]) == 1:
+                    # byte offset into a retyped byte buffer
+                    s.notes['gep into retyped buffer (byte offset)'] += 1
+                    return '(((u8*)&(*%s)%s) + %s)' % (e, path, s.sx(ity, ix)), IntTy(8)
                 raise TypeError('gep into %r with %r' % (r, ix))
         return '(&(*%s)%s)' % (e, path), cur
 
